@@ -7,7 +7,7 @@ import props.C02 as C02
 
 RULE = ('inputs: corpus, g2 fragments biased to ( ) [ ] CASE END IF "END IF" FOR "END LOOP" BEGIN in arbitrary (also unbalanced) interleavings, grammar scripts and blocks; '
         'every dictionary word (and the multi-word END/loop keywords of the lexer) as a would-be opener/closer against each real opener/closer; each kind nested in 25..70 levels of each other kind and alternating kinds; '
-        'spans of the six classes compared with an independent stack matcher over the flattened leaves; non-trivial = distinct input with at least one opener or closer')
+        'second pass: every sequence of <= 4 (thorough 5) openers/closers/words (all crossings); every whitespace character inside END IF / END LOOP; spans of the six classes compared with an independent stack matcher over the flattened leaves; non-trivial = distinct input with at least one opener or closer')
 ASSUMPTIONS = C02.ASSUMPTIONS
 PARTIAL = ['that what align_comments appends is exactly whitespace + one Comment group is oracle-checked; matching refinement and preservation of the six classes by all later passes are theorems']
 
@@ -140,10 +140,39 @@ def mixed_nesting_inputs(ctx):
         yield ' '.join(o for o, _ in seq) + ' z ' + ' '.join(c for _, c in reversed(seq))
 
 
+# --- second pass ---------------------------------------------------------------------------------------------------------------------------
+CROSS_SYMBOLS = ['(', ')', 'y[', ']', 'case', 'end', 'if', 'end if', 'for', 'end loop', 'begin', 'x']      # `y[`: after a word `[` is a bracket token, elsewhere the opener of a [quoted name]
+
+
+def crossing_exhaustive(ctx):
+    """EVERY sequence of at most 4 (thorough: 5) symbols over the six openers, their closers and a plain word: all crossings of two kinds
+    (`( [ ) ]`, `case ( end )`, `begin if end end if` …) — the order of the matching passes decides them, a random draw finds them only by luck"""
+    import itertools
+    for n in range(1, ctx.n(4, 5) + 1):
+        for seq in itertools.product(CROSS_SYMBOLS, repeat=n):
+            yield 'a ' + ' '.join(seq)              # `a` in front: `[` is then a bracket, not the opener of a [quoted name]
+
+
+def inner_whitespace_inputs():
+    """the two-word closers with every whitespace character of str.isspace() (and some runs) between their words: the closer is found through the
+    keyword's normalised spelling"""
+    import sys
+    ws = [chr(c) for c in range(sys.maxunicode + 1) if chr(c).isspace()] + ['  ', '\r\n', '\n\r', '\r\r', ' \r ', '\t\r\n', '\xa0 ']
+    for w in ws:
+        yield 'begin if a then for x in y loop z end%sloop end%sif end' % (w, w)
+        yield 'IF a THEN b END%sIF c END%sLOOP' % (w, w)
+        yield '( if a end%sif ) [ for b end%sloop ]' % (w.upper(), w)
+
+
 def run(ctx):
     rng = ctx.rng
     ins = [c['input'] for c in streams.corpus('C09')]
-    extra = list(vocabulary_inputs(ctx)) + list(mixed_nesting_inputs(ctx))
+    extra = list(vocabulary_inputs(ctx)) + list(mixed_nesting_inputs(ctx)) + list(inner_whitespace_inputs())
+    nx = 0
+    for s in crossing_exhaustive(ctx):
+        oracle(ctx, s)
+        nx += 1
+    ctx.count('crossing sequences (bounded exhaustive)', nx)
     ctx.count('vocabulary/mixed-nesting inputs', len(extra))
     for s in extra:
         oracle(ctx, s)
